@@ -124,35 +124,90 @@ type Obs struct {
 
 func feq(a, b float64) bool { return a == b || (math.IsNaN(a) && math.IsNaN(b)) }
 
+// obsOrder drives the order in which Observe asks its queries: the first query a sketch answers after a
+// mutation finds the stores as the mutation left them (unsorted buffers, pending compaction), so which query
+// comes first is part of the workload. It is set at the start of every case from the case's seed (single goroutine).
+var obsOrder uint64
+
+// SetObserveOrder seeds the query order of the following Observe calls.
+func SetObserveOrder(seed uint64) { obsOrder = seed }
+
+func nextOrder() uint64 {
+	obsOrder += 0x9e3779b97f4a7c15
+	z := obsOrder
+	z = (z ^ (z >> 30)) * 0xbf58476d1ce4e5b9
+	z = (z ^ (z >> 27)) * 0x94d049bb133111eb
+	return z ^ (z >> 31)
+}
+
 // Observe takes a snapshot. extraQ are case-specific quantiles added to the grid.
+// The snapshot's content does not depend on the order of the queries (C14); the order varies from call to call.
 func Observe(s Sketch, extraQ []float64) *Obs {
 	k := s.I()
 	o := &Obs{}
-	o.Count = k.GetCount()
-	o.Zero = k.GetZeroCount()
-	o.Empty = k.IsEmpty()
-	var err error
-	o.Min, err = k.GetMinValue()
-	o.MinErr = err != nil
-	o.Max, err = k.GetMaxValue()
-	o.MaxErr = err != nil
-	o.Pos, _, _ = ForEachBins(k.GetPositiveValueStore())
-	o.Neg, _, _ = ForEachBins(k.GetNegativeValueStore())
 	o.Qs = append(append([]float64{}, ObsGrid...), extraQ...)
 	o.Quant = make([]float64, len(o.Qs))
 	o.QuantErr = make([]bool, len(o.Qs))
-	for i, q := range o.Qs {
-		v, err := k.GetValueAtQuantile(q)
-		o.Quant[i], o.QuantErr[i] = v, err != nil
-		if err != nil {
-			o.Quant[i] = math.NaN()
-		}
+	z := nextOrder()
+	groups := []func(){
+		func() {
+			var err error
+			if z&(1<<40) == 0 {
+				o.Count = k.GetCount()
+				o.Zero = k.GetZeroCount()
+				o.Empty = k.IsEmpty()
+			}
+			if z&(1<<41) == 0 {
+				o.Min, err = k.GetMinValue()
+				o.MinErr = err != nil
+				o.Max, err = k.GetMaxValue()
+				o.MaxErr = err != nil
+			} else {
+				o.Max, err = k.GetMaxValue()
+				o.MaxErr = err != nil
+				o.Min, err = k.GetMinValue()
+				o.MinErr = err != nil
+			}
+			if z&(1<<40) != 0 {
+				o.Empty = k.IsEmpty()
+				o.Zero = k.GetZeroCount()
+				o.Count = k.GetCount()
+			}
+		},
+		func() { o.Pos, _, _ = ForEachBins(k.GetPositiveValueStore()) },
+		func() { o.Neg, _, _ = ForEachBins(k.GetNegativeValueStore()) },
+		func() {
+			for j := range o.Qs {
+				i := j
+				if z&(1<<42) != 0 {
+					i = len(o.Qs) - 1 - j
+				}
+				v, err := k.GetValueAtQuantile(o.Qs[i])
+				o.Quant[i], o.QuantErr[i] = v, err != nil
+				if err != nil {
+					o.Quant[i] = math.NaN()
+				}
+			}
+		},
+		func() {
+			var err error
+			o.Batch, err = k.GetValuesAtQuantiles(o.Qs)
+			o.BatchErr = err != nil
+		},
+		func() {
+			if s.Exact {
+				o.HasSum = true
+				o.Sum = k.GetSum()
+			}
+		},
 	}
-	o.Batch, err = k.GetValuesAtQuantiles(o.Qs)
-	o.BatchErr = err != nil
-	if s.Exact {
-		o.HasSum = true
-		o.Sum = k.GetSum()
+	// Fisher-Yates on the groups
+	for i := len(groups) - 1; i > 0; i-- {
+		j := int((z >> uint(6*i)) % uint64(i+1))
+		groups[i], groups[j] = groups[j], groups[i]
+	}
+	for _, g := range groups {
+		g()
 	}
 	return o
 }
